@@ -275,3 +275,6 @@ Proof.
       rewrite Hc.
       destruct (Pipe.run Pipe.Sym.body Pipe.Sym.pick p o kw false) as [[x|e] lg]; reflexivity.
 Qed.
+
+Theorem model_meets_spec_run_order : spec_ok CRunOrder (run CRunOrder) = true.
+Proof. vm_compute. reflexivity. Qed.
